@@ -1,8 +1,18 @@
 import AITB.Model.Proto
 import AITB.Model.Sampling
+import AITB.Gen.C08Variant
 open AITB AITB.Sampling
 
 namespace DrvC08
+
+/-! The model of *the code that exists*: `AITB.Gen.C08Variant` (regenerated from the source on every
+    run by tools/extract_c08.py) says, for the three sites with a proposed repair, which form the
+    library currently has. -/
+def projectImpl (v : List Rat) : List Rat := if Gen.C08.projectFixed then projectFixed v else project v
+def sampleSparseImpl (d : Nat) (row rest : List (Nat × Rat)) (u : Rat) : Option Nat :=
+  if Gen.C08.sparseHasEndTest then some (sampleSparseFixed d row u) else sampleSparse row rest u
+def voseBuildImpl (p : List Rat) (avg : Rat) : List Rat × List Nat :=
+  if Gen.C08.voseFixed then voseBuildFixed p avg else voseBuild p avg
 
 def tolCmp : Rat := 1 / 1000000000          -- 1e-9: comparison / conditioning margin
 def two53 : Nat := 2 ^ 53
@@ -53,7 +63,7 @@ def sparseOne (comp : String) (n : Nat) (row rest : List (Nat × Rat)) (v : Verd
   -- conditioning: breakpoints of the row and of what follows it
   let allv := vals ++ rest.map (·.2)
   if !exact && decide (bpMargin allv u < tolCmp) then { v with tag := "illc" } else
-  let m := sampleSparse row rest u
+  let m := sampleSparseImpl n row rest u
   let v := match posOf row r with
     | none => v.failIf true s!"{comp} outside_support column={r} u={ratStr u} rowsum={ratStr vals.sum}"
     | some k =>
@@ -90,7 +100,7 @@ def proj : P String := do
   let v := v.failIf (out.length != vin.length) s!"{comp} wrong_length {out.length}"
   let v := v.failIf (isProb vin && out != vin) s!"{comp} changes_valid_input"
   let v := v.failIf (vin.length != 0 && !(isProb out)) s!"{comp} not_probability@{br} sum={ratStr out.sum}"
-  let v := v.diffIf (!(closeL (project vin) out)) s!"{comp} branch={br} model={(project vin).map ratStr} impl={out.map ratStr}"
+  let v := v.diffIf (!(closeL (projectImpl vin) out)) s!"{comp} branch={br} model={(projectImpl vin).map ratStr} impl={out.map ratStr}"
   return v.render
 
 /-- `rand draws… | out… words` -/
@@ -113,7 +123,7 @@ def vose : P String := do
   let comp := "VoseAliasSampler"
   let n := p.length
   if thr.length != n || alias.length != n || n == 0 then P.fail
-  let (mp, ma) := voseBuild p avg
+  let (mp, ma) := voseBuildImpl p avg
   let mthr := mp.map clamp01
   let ma := (List.range n).map (fun i => if mthr.getD i 0 == 1 then i else ma.getD i 0)
   let exact := isPow2 n && p.all (fun q => (2 ^ 40) % q.den == 0)
